@@ -3,6 +3,7 @@
 # binary /tmp/mut-<name>.test built against it (for developing a check against a seeded change by hand). Remove both with
 # lib/mutbuild.sh <name> --rm. harness/go.mod is pointed back at /repo afterwards.
 set -u
+V=$(cd "$(dirname "$0")/.." && pwd)
 export GOFLAGS=-mod=mod GOPROXY=off GOSUMDB=off GOTOOLCHAIN=local
 NAME=$1; CHANGE=$2; WT=/tmp/mut-$NAME
 git -C /repo worktree remove --force "$WT" >/dev/null 2>&1; rm -f "$WT.test"
@@ -12,7 +13,7 @@ case "$CHANGE" in
   -R:*) git -C /repo show "${CHANGE#-R:}" | git -C "$WT" apply -R || exit 3 ;;
   *) git -C "$WT" apply "$CHANGE" || exit 3 ;;
 esac
-exec 9>/verif/.check.lock; flock 9
-cd /verif/harness && VERIF_REPO=$WT sh gen_gomod.sh >/dev/null 2>&1 && go test -c -tags verif -o "$WT.test" . ; RC=$?
+exec 9>$V/.check.lock; flock 9
+cd $V/harness && VERIF_REPO=$WT sh gen_gomod.sh >/dev/null 2>&1 && go test -c -tags verif -o "$WT.test" . ; RC=$?
 VERIF_REPO=/repo sh gen_gomod.sh >/dev/null 2>&1
 exit $RC
